@@ -982,6 +982,18 @@ def make_selection(prog, ids):
     return mk_
 
 
+def history_scenario(mv):
+    """The bounded history as a scenario for the native replay (replay/src/historyops.rs): the model's sizes and options."""
+    s1, s2, sb = max(1, mv.get('size_a1', 1)), max(1, mv.get('size_a2', 1)), max(0, mv.get('size_b', 0))
+    f = lambda p, cls, size, mt, mode=0o644: {'path': p, 'kind': 'File', 'content_len': size, 'content_class': cls, 'mtime': mt, 'mode': mode}
+    return {'kind': 'history',
+            'options': {'max_entries_per_hunk': mv.get('oH', 1000), 'max_block_size': mv.get('oB', 1 << 20), 'small_file_cap': mv.get('oC', 1 << 20)},
+            'trees': {'T1': [f('/a', 1, s1, [10, 0]), f('/c', 3, sb, [12, 0])],
+                      'T2': [f('/a', 2, s2, [20, 5]), f('/b', 3, sb, [21, 0], 0o600), f('/c', 3, sb, [12, 0])],
+                      'T3': [f('/a', 1, s1, [30, 0]), f('/c', 3, sb, [12, 0])]},
+            'steps': [{'backup': 'T1'}, {'backup': 'T2'}, {'delete': 0}, {'backup': 'T2'}, {'backup': 'T3'}]}
+
+
 def make_history(prog):
     """A bounded history: backup(T1); backup(T2 = T1 with /a rewritten and /b added); [interrupted backup of T3]; delete the first
     version; gc.  After every step every completed version still resolves to exactly its own snapshot."""
@@ -1043,6 +1055,15 @@ def make_history(prog):
                 if stats_field(ex, r[1], 'written_blocks') != 0:
                     problems.append('a backup of the unchanged tree after the delete wrote blocks again')
             check_all('after backup 3')
+            # content that was in the deleted version comes back: its blocks are gone and must be stored again
+            T3 = SourceTreeV([root(3), SrcFile('/a', 'File', cls=1, size=s1, mtime=TimeV(30, 0), mode=0o644),
+                              SrcFile('/c', 'File', cls=3, size=sb, mtime=TimeV(12, 0), mode=0o644)])
+            r = run_backup(ex, ar, T3, opts())
+            if r[0] != 'ok':
+                problems.append('fourth backup failed')
+            else:
+                snaps[3] = T3
+            check_all('after backup 4 (content of the deleted version returns)')
             return problems
 
         def on_path(ex, out):
@@ -1053,9 +1074,10 @@ def make_history(prog):
                 return
             if out[1]:
                 r0, m = ex.E.check()
-                res['bad'].append({'kind': 'history', 'problems': out[1][:4], 'model': model_values(m)})
+                res['bad'].append({'kind': 'history', 'problems': out[1][:4], 'model': model_values(m), 'scenario': history_scenario(model_values(m))})
             elif len(res['samples']) < 1:
                 r0, m = ex.E.check()
-                res['samples'].append({'history': 'backup T1; backup T2; delete b0000; backup T2', 'model': model_values(m)})
+                res['samples'].append({'history': 'backup T1; backup T2; delete b0000; backup T2; backup T1 again', 'model': model_values(m),
+                                       'scenario': history_scenario(model_values(m))})
         return h, on_path, res
     return mk_
